@@ -919,7 +919,8 @@ def summarize(check, tier, seed, records, wall, extra_bounded=None):
                 undecided.append({"name": full, "detail": r.get("detail")})
     violations = []
     known_hits = []
-    os.makedirs(os.path.join(VERIF, "replays"), exist_ok=True)
+    repdir = os.environ.get("VERIF_REPLAY_DIR", os.path.join(VERIF, "replays"))
+    os.makedirs(repdir, exist_ok=True)
     seen_known = set()
     nreplay = 0
     # replay budget: spread over distinct shapes / obligation families first
@@ -941,7 +942,7 @@ def summarize(check, tier, seed, records, wall, extra_bounded=None):
                 known_hits.append(kf)
             continue
         tag = hashlib.sha1(full.encode()).hexdigest()[:10]
-        path = os.path.join(VERIF, "replays", "%s-%s.json" % (prop, tag))
+        path = os.path.join(repdir, "%s-%s.json" % (prop, tag))
         confirmed = bool(verdict and verdict.get("verdict") == "native-disagrees-with-spec")
         doc = {"property": prop, "obligation": full, "name": r["name"], "sample_seed": rec.get("sample_seed"), "harness": rec["harness"], "shape": rec["shape"],
                "verifier_output": {k: r.get(k) for k in ("got", "exp", "detail", "backend", "cex")},
@@ -1020,8 +1021,9 @@ def summarize(check, tier, seed, records, wall, extra_bounded=None):
                                              "note": "run-time contract checks on generated / sampled inputs; NOT counted in obligations/discharged"}
     if extra_bounded:
         ev["coverage"]["bounded"] = extra_bounded
-    os.makedirs(os.path.join(VERIF, "evidence"), exist_ok=True)
-    with open(os.path.join(VERIF, "evidence", "%s.json" % prop), "w") as fh:
+    evdir = os.environ.get("VERIF_EVIDENCE_DIR", os.path.join(VERIF, "evidence"))  # (override: experiments on scratch copies)
+    os.makedirs(evdir, exist_ok=True)
+    with open(os.path.join(evdir, "%s.json" % prop), "w") as fh:
         json.dump(ev, fh, indent=1, default=str)
     print("%s tier=%s obligations=%d discharged=%d failed=%d undecided=%d crashes=%d wall=%.1fs exit=%d" % (
         prop, tier, obligations, discharged, len(failed), len(undecided), len(crashes), wall, status))
